@@ -4,7 +4,7 @@
    float outputs (residuals, unit norm, truncation error bound) are checked by harness/c12.py and
    are NOT theorems.  Models: Tensor/StartStop.v, Tensor/MpsDims.v, Tensor/Mps.v, Tensor/Contract.v. *)
 From Coq Require Import List Arith Lia Bool ZArith QArith.
-From QV Require Import Tensor.Sums Tensor.Net Tensor.StartStop Tensor.Contract Tensor.Noop Tensor.MpsDims Tensor.Mps.
+From QV Require Import Tensor.Sums Tensor.Net Tensor.StartStop Tensor.Contract Tensor.Noop Tensor.MpsDims Tensor.Mps Tensor.Norm.
 Import ListNotations.
 Local Open Scope nat_scope.
 
@@ -78,22 +78,18 @@ Theorem c12_lcf_isometry : forall (K : cring)
   Forall isometry (removelast out) /\ length out = S (length rest).
 Proof. intros K decomp is0 finish iso H rest. exact (lcf_isometry K decomp is0 finish iso H rest). Qed.
 
-(* ---- statements that are NOT proved (numerical checking only, harness/c12.py) ---------------- *)
+(* c12_normalised [P-forall given the isometry property of the sites]: left isometries followed by a last
+   site of unit Frobenius norm represent a tensor of unit norm; [gram K A 0 0] is the sum over all physical
+   index tuples of the squared entries of the represented tensor *)
+Theorem c12_normalised : forall (K : cring) (out : list (tensor K)) (L : tensor K),
+  chain K (out ++ [L]) -> dn (hd L out) = 1 -> ds L = 1 -> Forall (left_isometry K) out ->
+  sumn (dn L) (fun n => sumn (de L) (fun e => sumn (dw L) (fun w => rmul K (val L n e 0 w) (val L n e 0 w)))) = r1 K ->
+  gram K (out ++ [L]) 0 0 = r1 K.
+Proof. exact normalised_norm2. Qed.
+
+(* ---- statement that is NOT proved (numerical checking only, harness/c12.py) ------------------- *)
 Definition norm2 (K : cring) (dw_ de_ : list nat) (f : list nat -> list nat -> K) : K :=
   sumt dw_ (fun ws => sumt de_ (fun es => rmul K (f ws es) (f ws es))).
-Definition left_isometry (K : cring) (Q : tensor K) : Prop :=
-  forall s s', s < ds Q -> s' < ds Q ->
-    sumn (dn Q) (fun n => sumn (de Q) (fun e => sumn (dw Q) (fun w => rmul K (val Q n e s w) (val Q n e s' w))))
-    = if s =? s' then r1 K else r0 K.
-(* a left-canonical MPS with a unit-norm last tensor represents a unit-norm state *)
-Definition c12_normalised_statement : Prop :=
-  forall (K : cring) (out : list (tensor K)) (last : tensor K),
-    chain K (out ++ [last]) -> dn (hd last out) = 1 -> ds last = 1 ->
-    Forall (left_isometry K) out ->
-    sumn (dn last) (fun n => sumn (de last) (fun e => sumn (dw last) (fun w =>
-      rmul K (val last n e 0 w) (val last n e 0 w)))) = r1 K ->
-    norm2 K (map (@dw K) (out ++ [last])) (map (@de K) (out ++ [last]))
-          (fun ws es => opc (map Some (out ++ [last])) 0 ws es) = r1 K.
 (* Eckart-Young-type bound, in rank form (no singular values needed): the truncated state, times the
    returned norm, is no further (squared) from the input state than the sum over the internal bonds i
    of the squared distance from the input to ANY state phi_i of rank <= (kept bond i) across bond i.
@@ -120,4 +116,4 @@ Proof. vm_compute. reflexivity. Qed.
 Print Assumptions c12_start_stop_sound. Print Assumptions c12_start_stop_error. Print Assumptions c12_reverse_involutive.
 Print Assumptions c12_rcf_mirror. Print Assumptions c12_truncate_identity. Print Assumptions c12_lcf_bond.
 Print Assumptions c12_rcf_bond. Print Assumptions c12_truncate_bond. Print Assumptions c12_lcf_state.
-Print Assumptions c12_lcf_isometry.
+Print Assumptions c12_lcf_isometry. Print Assumptions c12_normalised.
